@@ -65,7 +65,7 @@ def main():
     fired = {}
     for c in man["checks"]:
         p = c["property_id"]
-        rc, o = sh("python3 -m glcheck.core %s --tier quick --no-evidence --no-replay-files" % p, cwd=VERIF,
+        rc, o = sh("python3 -m glcheck %s --tier quick --no-evidence --no-replay-files" % p, cwd=VERIF,
                    env={"GL_REPO": WT, "GL_CACHE": "/tmp/seedverify-cache"})
         rules = sorted(set(re.findall(r"^  (\w+) ", o, re.M)))
         fired[p] = {"exit": rc, "rules": rules}
